@@ -7,7 +7,7 @@ func profileByName(name string) Profile {
 	p.Name = name
 	switch name {
 	case "general":
-		p.Types = []int{0, 1, 2, 3, 4, 7, 9, 17, tBundle}
+		p.Types = []int{0, 1, 2, 3, 4, 7, 9, 17, tBundle, tMapV, tFuncV, tArrV}
 	case "gapped":
 		p.PGap, p.POptional, p.PDecorate, p.PInvalid = 0.22, 0.4, 0.1, 0.02
 		p.MinFns, p.MaxFns = 3, 10
